@@ -34,9 +34,10 @@ def plan(tier, seed):
 
 def thresholds(tier):
   t = {"design_backend_pairs": 100, "texts_compared": 300, "module_tables_checked": 100, "standalone_bodies_compared": 200,
-       "parameterisations": 300, "hashed_module_names": 20, "full_names_checked": 150, "instance_statements_checked": 120}
+       "parameterisations": 300, "hashed_module_names": 20, "full_names_checked": 150, "instance_statements_checked": 120, "reserved_word_probes": 1500, "reserved_word_probe_controls_translated": 100}
   if tier == "thorough":
     t = {k: v * 8 for k, v in t.items()}
+    t["reserved_word_probes"] = 1500; t["reserved_word_probe_controls_translated"] = 100       # same size in both tiers
   return t
 
 
@@ -300,8 +301,54 @@ def run_subtree_probe(sh):
       G.unload(mod)
 
 
+def run_keyword_probe(sh):
+  """identifiers are legal: a signal / block / loop variable named like a reserved word of IEEE 1800-2017 (list written down from
+  Annex B in vlib/svkeywords.py, not taken from pymtl3's table) is either refused by the translator or renamed - it never reaches
+  the emitted text as an identifier"""
+  import keyword
+  from pymtl3 import Component, InPort, OutPort, Wire, update
+  from vlib import cosim
+  from vlib.svkeywords import SV_KEYWORDS, EMITTED_SYNTAX
+  usable = sorted(k for k in SV_KEYWORDS - EMITTED_SYNTAX if not keyword.iskeyword(k))
+  rng = sh.rng("keywords", sh.idx)
+  mine = usable[sh.idx::16]          # every usable keyword in every run (16 shards)
+  for kw in mine + ["plain_name"]:
+    for where in ("port", "wire", "block", "loopvar"):
+      decl = {"port": f"    s.{kw} = InPort(8)", "wire": f"    s.{kw} = Wire(8)\n    s.{kw} //= s.i", "block": "", "loopvar": ""}[where]
+      blk = kw if where == "block" else "up"
+      body = f"      for {kw} in range(8):\n        s.o[{kw}] @= s.i[{kw}]" if where == "loopvar" else \
+             f"      s.o @= s.{kw if where in ('port', 'wire') else 'i'} + 1"
+      src = f"from pymtl3 import *\nclass KTop(Component):\n  def construct(s):\n    s.i = InPort(8); s.o = OutPort(8)\n{decl}\n    @update\n    def {blk}():\n{body}\n"
+      for be in ("sv", "ys"):
+        sh.count("reserved_word_probes")
+        mod = G.load_source(src, "c13kw")
+        try:
+          top = mod.KTop(); top.elaborate()
+          text, fn, topmod = cosim.translate(top, be)
+        except Exception as e:
+          if kw == "plain_name": sh.inconclusive("keyword-probe-control-design-refused:" + type(e).__name__)
+          sh.count("reserved_word_probes_refused"); continue
+        finally:
+          G.unload(mod)
+        try: os.remove(fn)
+        except OSError: pass
+        if kw == "plain_name": sh.count("reserved_word_probe_controls_translated"); continue
+        body_ = "\n".join(l.split("//")[0] for l in text.splitlines())
+        if re.search(r"(?<![\w$])%s(?![\w$])" % re.escape(kw), body_):
+          lines = [l.strip() for l in body_.splitlines() if re.search(r"(?<![\w$])%s(?![\w$])" % re.escape(kw), l)][:3]
+          sh.violation("reserved-word-emitted-as-identifier", {"keyword": kw, "used_as": where, "backend": be, "lines": lines,
+                       "since": "IEEE 1800-2009/2012" if kw in NEWER_KEYWORDS else "IEEE 1364 / 1800-2005"},
+                       mechanism="keywords-added-by-1800-2009-and-2012-not-reserved" if kw in NEWER_KEYWORDS else None, case=("keyword", kw, where, be))
+        else: sh.count("reserved_word_probes_renamed")
+
+
+NEWER_KEYWORDS = set("accept_on checker endchecker eventually global implements implies interconnect let nettype nexttime reject_on restrict s_always "
+                     "s_eventually s_nexttime s_until s_until_with soft strong sync_accept_on sync_reject_on unique0 until until_with untyped weak".split())
+
+
 def run_shard(sh):
   if sh.params["part"] == 0: run_subtree_probe(sh)
+  run_keyword_probe(sh)
   rng = sh.rng("c13")
   items = []
   for c in range(sh.params["designs"]):
